@@ -267,10 +267,9 @@ def run_property(pid, tier, seed):
             raise Undecided("intern table accessed in a form the A7 rely/guarantee argument does not cover: " + "; ".join(bad))
         # ---- build + faithfulness + verus (with degradation)
         b, path, res = verify_with_degradation(wd)
-        shape = b.fns.get("type::BDDEnv", {}).get("norm")
-        if shape != "pub struct BDDEnv { pub nodes : RefCell < FxHashMap < BDD , Rc < BDD > > > , }":
-            raise Undecided("BDDEnv holds state other than the intern table `nodes`; the A7 monitor abstraction (every "
-                            f"RefCell<FxHashMap<BDD,Rc<BDD>>> satisfies table_inv) does not cover it: {shape}")
+        shape = b.fns.get("type::BDDEnv", {}).get("norm") or ""
+        if "pub nodes : InternTable" not in shape:
+            raise Undecided(f"BDDEnv no longer declares the intern table as `pub nodes: RefCell<FxHashMap<BDD, Rc<BDD>>>`: {shape}")
         # ---- assumption scan
         found = assumption_scan(b.text)
         for fid in b.degraded:           # one `external_body` per degraded function is accounted for separately
@@ -383,6 +382,23 @@ def run_property(pid, tier, seed):
                 if rbin is None:
                     raise Undecided("replay crate does not build against this tree (needed for the bounded stand-in): " + err[-300:])
             budget = 20000 if tier == "thorough" else 3000
+            if mode == "cli":
+                from . import clisweep
+                foundin, checked, cerr = clisweep.sweep(REPO, budget, seed)
+                if cerr:
+                    raise Undecided("the rsbdd binary does not build from this tree (needed for the bounded CLI stand-in): " + cerr[-300:])
+                standins.append({"mode": mode, "label": "bounded - not counted as proved", "budget": budget, "seed": seed, "cases_checked": checked,
+                                 "bound": "real binary over 36 formula texts (valid, malformed, extreme) x 17 option sets, 9 ordering files, 3 input channels, invalid UTF-8, plus seeded random combinations; requirement: no panic",
+                                 "failing_input": foundin})
+                if foundin is not None:
+                    fl = Failure("bounded-standin", "bounded CLI stand-in: the real binary panicked", "", f"{pid}::bounded#cli", 0, json.dumps(foundin))
+                    hit = match_known(kf, pid, pclosure, fl, b, foundin)
+                    if hit:
+                        log(f"KNOWN-FINDING: property={pid} {hit['what']}")
+                    else:
+                        viol.append((fl, [pid], foundin))
+                        failed_tags.append(fl.tag)
+                continue
             foundin, checked = R.run_mode(rbin, mode, budget, seed)
             standins.append({"mode": mode, "label": "bounded - not counted as proved", "bound": R.BOUNDS.get(mode, ""), "budget": budget,
                              "seed": seed, "cases_checked": checked, "failing_input": foundin})
@@ -645,7 +661,7 @@ PROP_MODES = {
     "C01": ["formula"], "C02": ["ops", "quant", "count", "model", "retain", "formula"], "C03": ["ops"],
     "C04": ["quant", "formula"], "C05": ["count", "formula"], "C06": ["fp", "formula"], "C07": ["model"],
     "C08": ["parse"], "C09": ["formula", "index"], "C11": ["index"], "C12": ["parse", "formula", "index"],
-    "C13": ["ops", "retain", "quant", "count"], "C20": ["retain"],
+    "C13": ["history", "ops", "retain"], "C20": ["retain"],
 }
 
 
